@@ -199,6 +199,18 @@ def gen(seed, index, tier):
         sc["bursts"] = [flood]
         sc["preempt_p"] = 0.0
         sc["trace_hot"] = False
+    elif rng.random() < 0.05:
+        # a long life: more connections, one after the other and mostly over TLS, than any per-server bound one might
+        # think of (40 children, 64 slots); every one of them finished long ago when the last ones arrive
+        hist = []
+        for i in range(rng.choice([42, 45, 66, 70])):
+            hist.append({"kind": rng.choice(["doc-small", "notfound", "doc-small", "html"]),
+                         "proto": rng.choice(["gemini", "https", "sgopher", "sgopher+", "gemini", "gopher"]),
+                         "net": {"role": "normal", "at": 0.25 * i, "segments": [], "delays": [0.0]}})
+        sc["bursts"] = [hist, _burst(rng, 2)]
+        sc["preempt_p"] = 0.0
+        sc["trace_hot"] = False
+        sc["long_life"] = True
     return sc
 
 
@@ -338,6 +350,8 @@ def execute(sc, tape=None):
                         counters["tls_clients"] = counters.get("tls_clients", 0) + 1
                     if role == "stalled":
                         counters["stalled_client_present"] = 1
+                    if sc.get("long_life") and bi == 0:
+                        counters["long_life_of_tls_connections"] = 1
                     if role in ("normal", "slow") and viol is None:
                         if role == "slow" and cl["net"]["gives_up"]:
                             continue
